@@ -431,6 +431,45 @@ def r04h(ctx):
                            f"(= {norm(d, 40) if d is not None else 'its parameter'}): for a reference written './Pictures/x.png' the manifest lists another name than the package holds")
 
 
+def r04i(ctx):
+    """A part that is filed has a media type.
+
+    `add_file` files the new part with the media type of its Blob.  The manifest treats "no media-type attribute" as "no entry"
+    (`get_media_type(path) is None` is the existence test of add_full_path), and set_attribute(name, None) writes no attribute: a Blob
+    whose media type may be None is filed with an entry that is invisible to that test — adding the file again lists it twice, deleting it
+    leaves one entry behind.  Rule: every store into `mime_type` in the Blob constructors is a str constant, a `str` parameter, a value
+    stored under a test of its own truth, or `value or <constant>`.
+    """
+    repo = ctx.repo
+    ctx.rule("R04i", "Blob constructors always set a media type (never a value that may be None)", floor=3)
+    c = repo.cls("Blob")
+    n = 0
+    for name, fs in sorted(c.methods.items()):
+        f = fs[0]
+        params = {a.arg: a for a in f.all_params()}
+        for a in walk_no_nested(f.node):
+            tg = a.targets if isinstance(a, ast.Assign) else [a.target] if isinstance(a, ast.AnnAssign) and a.value is not None else []
+            if not any(isinstance(t, ast.Attribute) and t.attr == "mime_type" for t in tg):
+                continue
+            n += 1
+            v = a.value
+            ok = isinstance(v, ast.Constant) and isinstance(v.value, str)
+            if not ok and isinstance(v, ast.Name):
+                if v.id in params and params[v.id].annotation is not None and ast.unparse(params[v.id].annotation) == "str":
+                    ok = True
+                elif any(pol and isinstance(t, ast.Name) and t.id == v.id for t, pol in structural_guards(a, stop=f.node)):
+                    ok = True
+            if not ok and isinstance(v, ast.BoolOp) and isinstance(v.op, ast.Or) and isinstance(v.values[-1], ast.Constant) and isinstance(v.values[-1].value, str) and v.values[-1].value:
+                ok = True
+            ctx.instance("R04i", f"{f.file}:{f.ident}", f"`{norm(a, 50)}` cannot store None", ok=ok, nontrivial=True, line=a.lineno)
+            if not ok:
+                ctx.report("R04i", f, a, norm(a, 60),
+                           f"{f.ident} may store None as the media type (`{norm(v, 40)}`): the manifest entry is then written without manifest:media-type, which add_full_path reads as "
+                           f"\"not listed\" — the same file added again is listed twice, and del_part leaves an entry for a file that is gone")
+    if n < 3:
+        raise AnalysisError("R04i: media-type stores of Blob not found")
+
+
 def run(ctx):
     r04a(ctx)
     r04b(ctx)
@@ -444,6 +483,7 @@ def run(ctx):
     r04e(ctx)
     r04f(ctx)
     r04h(ctx)
+    r04i(ctx)
     # the manifest entry of a part is found and removed by the exact path: a prefix or substring match unlists other parts that stay in the package (shared with C14)
     from .c14 import r14f
     r14f(ctx)
@@ -459,6 +499,8 @@ _DOC = "src/odfdo/document.py"
 _MA = "src/odfdo/manifest.py"
 _MAN = "src/odfdo/manifest.py"
 SEEDS = [
+    Seed("Blob.from_path looks unknown extensions up in a small table without default", "fault", _DOC,
+         '            blob.mime_type = "application/octet-stream"\n        return blob\n\n    @classmethod\n    def from_io', '            blob.mime_type = {".emf": "image/x-emf"}.get(extension)\n        return blob\n\n    @classmethod\n    def from_io', "R04i"),
     Seed("merge_styles_from files the fill image under its raw href", "fault", _DOC,
          '                url = style.url.lstrip("./")  # type: ignore', '                url = style.url  # type: ignore', "R04h"),
     Seed("Document.mimetype setter forgets the manifest root entry", "fault", _DOC,
